@@ -333,9 +333,13 @@ class Helper:
 
     def choose_words(self, words):
         assert threading.current_thread().ident == self._main_thread
+        # the same rules set_code() applies to a whole code
         if " " in words:
-            # the same rule set_code() applies to a whole code
             raise errors.KeyFormatError(f"Code words '{words}' contain spaces.")
+        try:
+            words.encode("utf-8")
+        except UnicodeEncodeError:
+            raise errors.KeyFormatError(f"Code words {words!r} cannot be encoded as UTF-8.")
         self._input._debug("I.choose_words")
         self._input.choose_words(words)
         self._input._debug("I.choose_words finished")
